@@ -4,6 +4,8 @@ import (
 	"bytes"
 	"encoding/json"
 	"fmt"
+	"github.com/thomasjungblut/go-sstables/skiplist"
+	"github.com/thomasjungblut/go-sstables/sstables"
 	"strings"
 
 	"verif/internal/core"
@@ -26,6 +28,9 @@ type c03Case struct {
 	SeqW int `json:"seqw,omitempty"` // 1-based index into the write configurations (0 = all)
 	// Big: one table with values beyond every internal size class (pool buckets, buffers): 600 000 and 2^20+5 bytes
 	Big bool `json:"big,omitempty"`
+	// Shared: two different tables are opened one after the other (and then side by side) with ONE loader object per
+	// loader type - a loader is configuration, whatever it caches must not carry over from one table to the next
+	Shared bool `json:"shared,omitempty"`
 	// Legacy > 0: fixture table Legacy-1 of the repository (written by an earlier version), read with every loader
 	Legacy int    `json:"legacy,omitempty"`
 	Sample string `json:"-"`
@@ -94,10 +99,11 @@ func (c c03) Run(ctx *core.Ctx) error {
 	for fi := range legacyTables() {
 		cases = append(cases, core.J(c03Case{Legacy: fi + 1}))
 	}
+	cases = append(cases, core.J(c03Case{Shared: true}))
 	ctx.Ev.Bounds["legacy_fixture_tables"] = len(legacyTables())
 	ctx.Ev.Bounds["sequential_key_tables"] = sizes
 	ctx.Ev.Bounds["large_value_table"] = "a=600000 incompressible bytes, ab=v, b=2^20+5 incompressible bytes, c=nil; stream writer x data compression {none, snappy} and skip-list writer, loaders {slice, disk}"
-	ctx.Ev.Rule = "every table = ascending subset of 6 keys (\"\", a, ab, b, the marker bytes, a 600-byte key) with values from {nil, empty, v, ..91, marker+00+ff*10, 5000 incompressible bytes} up to the size bound (one size larger with 3 values), written by the stream writer (buffers 5 and 4096) and the skip-list writer, x compression pairs x bloom sizing {1, default}, opened with {slice, skip-list, map[4]byte, disk} loaders x read buffers {5,4096}; plus every legacy fixture table of the repository x 4 loaders x read buffer/hash-check options against its documented content; probes: Contains/Get for 11 keys (present, absent, below min, above max, between), Scan, ScanStartingAt(each), ScanRange(all pairs, lower>upper must fail), metadata. distinct = (table, write config, read config); non-trivial = table has >= 1 record"
+	ctx.Ev.Rule = "every table = ascending subset of 6 keys (\"\", a, ab, b, the marker bytes, a 600-byte key) with values from {nil, empty, v, ..91, marker+00+ff*10, 5000 incompressible bytes} up to the size bound (one size larger with 3 values), written by the stream writer (buffers 5 and 4096) and the skip-list writer, x compression pairs x bloom sizing {1, default}, opened with {slice, skip-list, map[4]byte, disk} loaders x read buffers {5,4096}; plus one loader object of each type serving two different tables (one after the other and side by side); plus every legacy fixture table of the repository x 4 loaders x read buffer/hash-check options against its documented content; probes: Contains/Get for 11 keys (present, absent, below min, above max, between), Scan, ScanStartingAt(each), ScanRange(all pairs, lower>upper must fail), metadata. distinct = (table, write config, read config); non-trivial = table has >= 1 record"
 	ctx.Ev.Bounds["tables_full_value_alphabet"] = nfull
 	ctx.Ev.Bounds["tables_reduced_value_alphabet"] = len(cases) - nfull
 	ctx.Ev.Bounds["max_size_full"] = maxFull
@@ -129,6 +135,9 @@ func (c c03) Case(w *core.WCtx, payload json.RawMessage) core.Result {
 	var r core.Result
 	if cs.Legacy > 0 {
 		return c03Legacy(cs)
+	}
+	if cs.Shared {
+		return c03Shared(w)
 	}
 	sorted := cs.KVs
 	var seqProbes [][]byte
@@ -371,5 +380,85 @@ func c03Legacy(cs c03Case) core.Result {
 	if cs.Legacy == 1 {
 		r.Sample = string(core.J(map[string]any{"legacy_fixture": fx.Name, "content": kvsStr(fx.KVs), "probe_keys": len(probes)}))
 	}
+	return r
+}
+
+// c03Shared: one loader object serves two tables.
+func c03Shared(w *core.WCtx) core.Result {
+	var r core.Result
+	mk := func(prefix string, n int) []kv {
+		var out []kv
+		for i := 1; i <= n; i++ {
+			out = append(out, kv{[]byte(fmt.Sprintf("%s%03d", prefix, 2*i)), []byte(fmt.Sprintf("%s-value-%d", prefix, i))})
+		}
+		return out
+	}
+	tabs := [][]kv{mk("k", 40), mk("m", 57)}
+	dirs := []string{w.Dir(), w.Dir()}
+	for i := range tabs {
+		if err := writeTable(dirs[i], tabs[i], tblW{Writer: "stream", DataComp: 2, WBuf: 4096}); err != nil {
+			r.Viol = append(r.Viol, core.Violation{Desc: "cannot build table: " + err.Error()})
+			return r
+		}
+	}
+	probesOf := func(t []kv, prefix string) [][]byte {
+		var p [][]byte
+		for i := 0; i <= 2*len(t)+2; i += 3 {
+			p = append(p, []byte(fmt.Sprintf("%s%03d", prefix, i)))
+		}
+		return append(p, []byte("a"), []byte("z"))
+	}
+	loaders := map[string]func() sstables.IndexLoader{
+		"slice": func() sstables.IndexLoader { return &sstables.SliceKeyIndexLoader{ReadBufferSize: 4096} },
+		"skiplist": func() sstables.IndexLoader {
+			return &sstables.SkipListIndexLoader{KeyComparator: skiplist.BytesComparator{}, ReadBufferSize: 4096}
+		},
+		"disk": func() sstables.IndexLoader { return &sstables.DiskIndexLoader{} },
+	}
+	for _, name := range []string{"slice", "skiplist", "disk"} {
+		for _, mode := range []string{"one after the other", "side by side"} {
+			func() {
+				defer func() {
+					if p := recover(); p != nil {
+						r.Viol = append(r.Viol, core.Violation{Desc: fmt.Sprintf("shared %s loader, %s: panic: %v", name, mode, p), Case: core.J(c03Case{Shared: true})})
+					}
+				}()
+				l := loaders[name]()
+				open := func(i int) sstables.SSTableReaderI {
+					rd, err := sstables.NewSSTableReader(sstables.ReadBasePath(dirs[i]), sstables.ReadWithKeyComparator(skiplist.BytesComparator{}), sstables.ReadBufferSizeBytes(4096), sstables.ReadIndexLoader(l))
+					if err != nil {
+						panic(fmt.Sprintf("open table %d: %v", i, err))
+					}
+					return rd
+				}
+				check := func(i int, rd sstables.SSTableReaderI, when string) {
+					r.Traces++
+					for _, b := range probeSortedMap(rd, tabs[i], probesOf(tabs[i], []string{"k", "m"}[i]), name, &r.Evals) {
+						if len(r.Viol) < 6 {
+							r.Viol = append(r.Viol, core.Violation{Desc: fmt.Sprintf("one %s loader object for two tables (%s), table %d %s: %s", name, mode, i, when, b.Desc), Case: core.J(c03Case{Shared: true})})
+						}
+					}
+				}
+				r.Keys = append(r.Keys, core.HashKey("shared", name, mode))
+				if mode == "one after the other" {
+					a := open(0)
+					check(0, a, "first")
+					a.Close()
+					b := open(1)
+					check(1, b, "after the other one was used and closed")
+					b.Close()
+				} else {
+					a, b := open(0), open(1)
+					check(0, a, "first")
+					check(1, b, "second")
+					check(0, a, "again")
+					a.Close()
+					b.Close()
+				}
+			}()
+		}
+	}
+	r.Outcome = fmt.Sprintf("shared-loader ok=%v", len(r.Viol) == 0)
+	r.Sample = string(core.J(map[string]any{"kind": "one loader object, two tables", "tables": []int{40, 57}}))
 	return r
 }
